@@ -79,9 +79,9 @@ func c18PropBase(race bool) *pProp {
 			}
 			if race {
 				// the same grammars as the plain pass (same seed stream), fewer schedules
-				return pParams{grammars: 48, extra: 20}
+				return pParams{grammars: 48, extra: 15}
 			}
-			return pParams{grammars: 48, extra: 100}
+			return pParams{grammars: 48, extra: 75}
 		},
 		extraSpecs: func(r *rng) []*genParser {
 			// a grammar that backtracks exponentially and still terminates: one call
